@@ -169,7 +169,8 @@ def valid_grid(npts, g):
 def gen_ckpt_cases(chk, rng):
     n = 70 if chk.tier == 'quick' else 2000
     cases = []
-    time_sets = [[0], [5], [5, 40], [40, 100, 5], [999999, 5, 100], [100, 999999, 40, 5], [7, 123456, 99999, 100000]]
+    time_sets = [[0], [5], [5, 40], [40, 100, 5], [999999, 5, 100], [100, 999999, 40, 5], [7, 123456, 99999, 100000],
+                 [0, 5, 10], [0, 40]]
     big_sets = [[999999, 1000000], [5, 1000000, 40], [2000000, 10000000, 999998], [999999.5, 1000000, 999999],
                 [0.5, 1, 1.5], [2.0, 10.5, 3, 0], [12.0], [99999.5, 100000.0, 7], [1000000.0, 999999, 20.5]]
     for i in range(n):
@@ -192,6 +193,10 @@ def gen_ckpt_cases(chk, rng):
              'times': times, 'seed': rng.randint(0, 10 ** 6), 'time': None}
         if rng.random() < 0.2:
             c['time'] = rng.choice(times)
+        if i % 8 == 3 or i % 8 == 6:
+            # a requested checkpoint that is not the latest one, the initial one (t = 0, a falsy value) in particular
+            c['times'] = times = list(rng.choice([[0, 5, 10], [0, 40], [10, 0, 2], [5, 40, 100]]))
+            c['time'] = min(times)
         if loader == 'setup':
             c['nranks2'] = g2[0] * g2[1]
             c['npts'] = npts = [max(4, x) for x in npts]
